@@ -482,7 +482,7 @@ let () =
              | "JOIN" ->
                  (match parse_join mc with
                   | WJoin (cfg, _) ->
-                      Monitor.on_join !mon_nodes { Monitor.self = cfg.cf_id; has_cb = cfg.cf_has_cb; pred = cfg.cf_pred; fdc = cfg.cf_fd } impl;
+                      Monitor.on_join !mon_nodes { Monitor.self = cfg.cf_id; has_cb = cfg.cf_has_cb; pred = cfg.cf_pred; fdc = cfg.cf_fd; cluster = cfg.cf_cluster } impl;
                       incr mon_nodes
                   | _ -> ())
              | "SET" | "SETTTL" | "DEL" | "DELTTL" -> Monitor.on_local (next_int mc) impl ~is_write:true
